@@ -47,6 +47,7 @@ import (
 const (
 	c02Set        = 1 // the keyper set the keyper under test belongs to (below n: aliases with a keyper index)
 	c02OtherSet   = 4 // a set it does not belong to (key generation succeeded)
+	c02TwinSet    = 2 // a further set it belongs to, with the same activation block as set 1 (only in one seed state)
 	c02Activation = 2 // activation block of set 3
 	c02T1         = syncx.GenesisTime + 12
 	c02T2         = syncx.GenesisTime + 20
@@ -84,6 +85,7 @@ type c02model struct {
 	EonState  string // none | started | failed | success | restarted | restarted-success
 	NextEon   int64
 	Decrypted map[string]bool // identities released so far
+	Twin      bool            // the twin keyper set (same activation block, succeeded later) exists
 }
 
 func (m *c02model) clone() *c02model {
@@ -318,6 +320,17 @@ func (h *c02h) apply(s *c02state, o c02op, st *report.Stats) (ns *c02state, viol
 			return b
 		}
 		switch o.Content {
+		case "twin":
+			// a second keyper set (index 2) with the same activation block as set 1: the
+			// keyper is a member, its key generation was started later (greater shuttermint
+			// height) and succeeded. Nothing about set 1 changes.
+			if m.Twin {
+				return nil, ""
+			}
+			kpx.InstallEon(n.Pool, c02TwinSet, kpx.Addrs(c02members...), 2, c02Activation, 40, kpx.ConfigOnly, nil)
+			kpx.Must(q.InsertEon(ctx, kprdb.InsertEonParams{Eon: 40, Height: 400, ActivationBlockNumber: c02Activation, KeyperConfigIndex: c02TwinSet}))
+			kpx.Must(q.InsertDKGResult(ctx, kprdb.InsertDKGResultParams{Eon: 40, Success: true, PureResult: enc(40)}))
+			m.Twin = true
 		case "start":
 			if m.EonState != "none" && m.EonState != "failed" {
 				return nil, ""
@@ -530,7 +543,10 @@ func (h *c02h) apply(s *c02state, o c02op, st *report.Stats) (ns *c02state, viol
 				if !ok {
 					continue
 				}
-				if sh.Eon != c02Set {
+				// (with the twin set - same activation block, the keyper is a member, key
+				// generation succeeded - the handler may name either set: the trigger carries
+				// the activation block only; whether each identity may be served is judged below)
+				if sh.Eon != c02Set && !(m.Twin && sh.Eon == c02TwinSet) {
 					return ns, fmt.Sprintf("key shares published for keyper set %d the keyper does not belong to", sh.Eon)
 				}
 				for _, share := range sh.Shares {
@@ -608,6 +624,8 @@ func c02seeds() [][]c02op {
 		{{Kind: "eon", Dt: 0, Content: "start"}, {Kind: "block", Dt: 5, Content: "regMany"}, {Kind: "block", Dt: 5, Content: "regA"}, {Kind: "block", Dt: 5, Content: "regE"}, {Kind: "block", Dt: 5, Content: "none"}},
 		{{Kind: "eon", Dt: 0, Content: "start"}, {Kind: "eon", Dt: 0, Content: "success"}, {Kind: "block", Dt: 5, Content: "regMany"}, {Kind: "block", Dt: 5, Content: "regA"}},
 		{{Kind: "eon", Content: "start"}, {Kind: "eon", Content: "success"}, {Kind: "block", Dt: 5, Content: "trig"}, {Kind: "block", Dt: 5, Content: "trigB"}},
+		// a second keyper set with the same activation block whose key generation succeeded, while set 1's is running
+		{{Kind: "eon", Content: "twin"}, {Kind: "eon", Content: "start"}, {Kind: "block", Dt: 5, Content: "regA"}, {Kind: "block", Dt: 5, Content: "trig"}},
 	}
 }
 
